@@ -58,7 +58,9 @@ def cfgs_tla(cfgs):
 
 
 # ------------------------------------------------------------------ concretiser
-STYLES = ["ascii", "unicode", "escapes", "dollar_inside", "digits", "long", "jsonlike", "b64like", "spaces"]
+STYLES = ["ascii", "unicode", "escapes", "control", "dollar_inside", "digits", "long", "jsonlike", "b64like", "spaces"]
+EXOTIC_KEYS = ("uf1", "uf2", "uf3", "envkey")
+KEY_STYLES = ["%s\\", "C:\\Users\\%s", "%s\"q\"", "%sé漢\U0001d4b3", "%s\u2028x", "%s<&>", "%s sp ace", "%s\tt", "%s\x01\x7f", "%s/sl", "%s"]
 
 
 def _plain(idn, style, rng):
@@ -69,6 +71,8 @@ def _plain(idn, style, rng):
         return tok + "-é漢\U0001d4b3ß", tok
     if style == "escapes":
         return 'a"b\\c/d\x01\t<>& ' + tok + '\\"', tok
+    if style == "control":
+        return "\x01\x07\x0b\x7f\U000e0001" + tok + "\x1f", tok
     if style == "dollar_inside":
         return tok + "$inside$", tok
     if style == "digits":
@@ -108,6 +112,8 @@ class Concretiser:
         self.keymap = keymap or KEYMAP_DEFAULT
         self.styles = styles or STYLES
         self.nsrel = None
+        self._keys = {}
+        self.exotic_keys = True
 
     def _id(self):
         self.n += 1
@@ -191,6 +197,12 @@ class Concretiser:
         self.leaves.append(lf)
         return node
 
+    def key_for(self, k):
+        # one concrete spelling per abstract key and case (the same key must stay the same key)
+        if k not in self._keys:
+            self._keys[k] = self.rng.choice(KEY_STYLES) % k
+        return self._keys[k]
+
     def ns_parts(self):
         rel = self.nsrel or self._nsrel_hint
         if rel == "nsother":
@@ -202,7 +214,13 @@ class Concretiser:
     def build(self, tree, path=()):
         if isinstance(tree, dict):
             if "o" in tree:
-                return ('obj', [(self.keymap.get(k, k), self.build(v, path + (self.keymap.get(k, k),))) for k, v in tree["o"]])
+                kv = []
+                for k, v in tree["o"]:
+                    k2 = self.keymap.get(k, k)
+                    if self.variant > 0 and k2 in EXOTIC_KEYS and self.exotic_keys:
+                        k2 = self.key_for(k2)
+                    kv.append((k2, self.build(v, path + (k2,))))
+                return ('obj', kv)
             return ('arr', [self.build(v, path + (i,)) for i, v in enumerate(tree["a"])])
         return self.leaf(tree, path)
 
